@@ -199,6 +199,40 @@ var c01Forgeries = []forgery{
 		q.QeReportData[32+s.Intn(32)] = byte(1 + s.Intn(255))
 		gen.SignQe(q, w.Leaf.Key)
 	}},
+	{"hash-correct-trailing-words-cancel", "reject", func(w *gen.World, q *gen.RefQuote, s *gen.Stream) {
+		// non-zero padding whose 1/2/4/8-byte words cancel under addition or under xor (little- or big-endian): a
+		// zero test that folds the words instead of looking at each byte would let it through
+		gen.BindHash(q)
+		pad := q.QeReportData[32:]
+		width := []int{1, 2, 4, 8}[s.Intn(4)]
+		n := 32 / width
+		i := s.Intn(n)
+		j := (i + 1 + s.Intn(n-1)) % n
+		x := s.Bytes(width)
+		x[s.Intn(width)] |= byte(1 << uint(s.Intn(8)))
+		if s.Intn(3) == 0 {
+			x = make([]byte, width)
+			x[s.Intn(width)] = 0x80
+		}
+		y := append([]byte{}, x...)
+		if s.Intn(2) == 0 {
+			// two's complement of x read as a little- or big-endian integer: x + y == 0 mod 2^(8*width)
+			be := s.Intn(2) == 0
+			carry := 1
+			for k := 0; k < width; k++ {
+				idx := k
+				if be {
+					idx = width - 1 - k
+				}
+				v := int(^x[idx]) + carry
+				y[idx] = byte(v)
+				carry = v >> 8
+			}
+		}
+		copy(pad[i*width:], x)
+		copy(pad[j*width:], y)
+		gen.SignQe(q, w.Leaf.Key)
+	}},
 	{"hash-first-32-zero-rest-hash", "reject", func(w *gen.World, q *gen.RefQuote, s *gen.Stream) {
 		gen.BindHash(q)
 		var rd [64]byte
